@@ -31,16 +31,25 @@ def parseKind : String → Option TKind
   | "statefulnoid" => some .stateful   -- stateful, the server assigns no session IDs: same negotiation
   | _ => none
 
-def parseSubset (t : String) : Option (Option (List String)) :=
-  if t == "none" then some none
+def parseMask (t : String) : Option (Option (List String)) :=
+  if t == "none" || t == "" then some none
   else if t.startsWith "m" then
     let bits := (t.drop 1).toString.toList
     if bits.length != supportedProtocolVersions.length then none
     else some (some ((supportedProtocolVersions.zip bits).filterMap (fun p => if p.2 == '1' then some p.1 else none)))
   else none
 
+/-- The server's transport stack: `none | m<bits> | L | Lm<bits> | m<bits>L` (L = the SDK's LoggingTransport,
+outermost / inside the user's wrapper). -/
+def parseSubset (t : String) : Option (Option (List String) × LogPos) :=
+  if t.startsWith "L" then (parseMask (t.drop 1).toString).map fun m => (m, .outer)
+  else if t.endsWith "L" then (parseMask (t.dropEnd 1).toString).map fun m => (m, .inner)
+  else (parseMask t).map fun m => (m, .none)
+
+/-- `default` = nil options, `empty` = an options value with ProtocolVersion unset, `s<hex>` explicit. -/
 def parseReq (t : String) : Option (Option String) :=
   if t == "default" then some none
+  else if t == "empty" then some (some "")
   else if t.startsWith "s" then (hexToString (t.drop 1).toString).map some
   else none
 
@@ -114,26 +123,35 @@ def parseInit (t : String) : Option (String → Option String) :=
   else if t.startsWith "a" then (hexToString (t.drop 1).toString).map fun v => fun _ => some v
   else none
 
+def clauseTextW : ClauseW → String
+  | .base c => clauseText c
+  | .hiddenFilter => "C07: F46 negotiated version is not supported by the transport: a LoggingTransport in the server's transport stack hides the wrapped transport's ProtocolVersionSupporter"
+
+def cell (r k sub j st impl : String) : Proto.Verdict :=
+  match parseReq r, parseKind k, parseSubset sub with
+  | some req, some kind, some (subset, lg) =>
+    let S : Setup := { kind := kind, subset := subset, json := j == "1", store := st == "1", logging := lg }
+    let out := connect (wireFor kind) req S
+    { model := showOutcome out, violated := (monitorW req S (parseObs impl)).map clauseTextW }
+  | _, _, _ => { model := "bad-op" }
+
 /-- State: the number of connections the case's Server has served so far. -/
 def engine : Engine Nat where
   init := 0
   step n toks impl :=
     match toks with
     | ["reset"] => (0, { model := "ok" })
-    | ["connect", r, k, sub, j, st] =>
-      match parseReq r, parseKind k, parseSubset sub with
-      | some req, some kind, some subset =>
-        let S : Setup := { kind := kind, subset := subset, json := j == "1", store := st == "1" }
-        let out := connect (wireFor kind) req S
-        (n, { model := showOutcome out, violated := (monitor req S (parseObs impl)).map clauseText })
-      | _, _, _ => (n, { model := "bad-op" })
+    | ["connect", r, k, sub, j, st] => (n, cell r k sub j st impl)
+    -- 7th token: Server.Connect is still running while the client connects (w: a slow user wrapper,
+    -- g: a slow log sink); the outcome must not depend on it (`Race.discover_reads_filter`)
+    | ["connect", r, k, sub, j, st, _mode] => (n, cell r k sub j st impl)
     | ["step", r, k, sub, j, st, _hold] =>
       match parseReq r, parseKind k, parseSubset sub with
-      | some req, some kind, some subset =>
-        let S : Setup := { kind := kind, subset := subset, json := j == "1", store := st == "1" }
+      | some req, some kind, some (subset, lg) =>
+        let S : Setup := { kind := kind, subset := subset, json := j == "1", store := st == "1", logging := lg }
         let out := ((Srv.mk []).step wireFor ⟨req, S⟩).2
-        let v := ((monitor req S (parseObs impl)).map clauseText).map fun cl =>
-          if n == 0 then cl else s!"{cl} [connection #{n + 1} to one Server value: the version must fit THIS connection's transport, whatever the Server served before]"
+        let v := ((monitorW req S (parseObs impl)).map clauseTextW).map fun cl =>
+          if n == 0 then cl else s!"{cl} [connection #{n + 1} of a case that reuses ONE Server value, ONE Client and the caller's options values: the outcome must be that of a first connection over THIS connection's transport, whatever was connected before]"
         (n + 1, { model := showOutcome out, violated := v })
       | _, _, _ => (n, { model := "bad-op" })
     | ["foreign", r, carrier, d, i] =>
